@@ -193,6 +193,10 @@ def match_known(prop, facts):
                 n = len(v)
                 if not any(seq[i:i + n] == v for i in range(len(seq) - n + 1)):
                     ok = False
+            elif k.endswith('_any'):
+                seq = facts.get(k[:-4]) or []
+                if not any(x in seq for x in v):
+                    ok = False
             elif k.endswith('_prefix'):
                 if not str(facts.get(k[:-7], '')).startswith(v):
                     ok = False
